@@ -80,6 +80,17 @@ def lifeDrvStep (s : Life) (args : List String) : Life × String :=
     let sh := fun (o : LifeOut) => match o with | .refused => "err AlreadyStarted" | _ => "ok"
     (s4, joinC (sortStrings [sh o1, sh o2]))
   | ["stop"] => let (s', o) := lifeStep s .stop; (s', showLifeOut o)
+  | ["stop2"] =>
+    -- two concurrent stops: whichever is served first ends the loop, the other finds it over
+    let (s1, o1) := lifeStep s .stop
+    let (s2, o2) := lifeStep s1 .stop
+    (s2, joinC (sortStrings [showLifeOut o1, showLifeOut o2]))
+  | ["stopfail"] =>
+    -- the loop ends on its own (failed keep-alive) while a Stop is pending: the Stop returns
+    if s.loops = 0 then (s, "no-keepalive") else
+    let (s1, _) := lifeStep s (.tick false)
+    let (s2, o) := lifeStep s1 .stop
+    (s2, showLifeOut o)
   | ["wait"] => let (s', o) := lifeStep s .wait; (s', showLifeOut o)
   | "run" :: fail :: _ =>
     -- some intervals elapse; with `fail` the next keep-alive fails
